@@ -333,6 +333,14 @@ def run(chk, prog, tier):
     # the length it returns (symbolic write-coverage), and never reads its destination
     from valib import cover as CV
     CV.cover_rule(chk, prog, roles)
+    # the option field after a sequence of setter calls depends on the last call of each dimension only (the option model of C12,
+    # decided here as a premise: a bit left behind by an earlier mode would make the result depend on the history)
+    from checks import C12
+    expl_, assum_ = chk.explanation, list(chk.assumptions)
+    C12.run(chk, prog, tier)
+    chk.assumptions = assum_ + [a for a in chk.assumptions if a not in assum_]
+    chk.model = None
+    chk.explanation = expl_
     try:
         from valib import absint as ABS
         ABS.sentinel_rule(chk, prog, roles)
